@@ -4,7 +4,7 @@
    callbacks, I/O, timer, OS-error, close() and new-loop events, any fault oracle. *)
 From Coq Require Import List Bool Arith.
 From RecordUpdate Require Import RecordSet.
-From GW Require Import Proto ProtoEvolves ProtoProps ProtoMutex ProtoAnswer ProtoTransport Callbacks CallbackGen CallbackRefine.
+From GW Require Import Proto ProtoEvolves ProtoProps ProtoMutex ProtoAnswer ProtoTransport Callbacks CallbackGen CallbackRefine Coroutines CoroutineGen CoroutineRefine.
 Import ListNotations RecordSetNotations.
 
 (* never more than one open socket / connection (open = created and not yet closing) *)
@@ -68,6 +68,15 @@ Theorem C10_eof_received_is_the_model : forall s t l, tstate_of s t = TUp ->
   run_cb s (CbRead t IoEof) = (tr_close (fst (runm tcp_eof_received s l)) t, []) /\ snd (runm tcp_eof_received s l) = [].
 Proof. exact eof_received_refined. Qed.
 
+(* _ensure_lock and close() of the current source (tools/co2v.py) *)
+Theorem C10_ensure_lock_is_the_model : forall s,
+  ensure_lock s = if s_haslock s && Nat.eqb (s_lockloop s) (s_loop s) then s else run_steps ensure_lock_steps s.
+Proof. exact ensure_lock_refined. Qed.
+
+Theorem C10_tcp_close_is_the_model : forall s, s_lock s = true -> s_haslock s = true ->
+  lock_release (close_transport s) = run_steps (cl_finally tcp_close) (run_steps (cl_body tcp_close) s).
+Proof. exact tcp_close_refined. Qed.
+
 Print Assumptions C10_at_most_one_open_transport.
 Print Assumptions C10_open_transport_is_referenced.
 Print Assumptions C10_nothing_open_after_request.
@@ -80,3 +89,5 @@ Print Assumptions C10_close_transport_is_the_model.
 Print Assumptions C10_connection_made_is_the_model.
 Print Assumptions C10_connection_lost_is_the_model.
 Print Assumptions C10_eof_received_is_the_model.
+Print Assumptions C10_ensure_lock_is_the_model.
+Print Assumptions C10_tcp_close_is_the_model.
